@@ -461,7 +461,7 @@ GenData ==
   /\ st.ph = "init"
   /\ \/ \E p \in {2, 3} : \E amp \in [1..p -> 1..MaxA], off \in Offs(p) :
            st' = [ph |-> "data", p |-> p, amp |-> amp, off |-> off]
-     \/ \E b \in [1..4 -> 1..MaxA], sc \in {1, 10}, off \in Offs(4) :
+     \/ \E b \in [1..4 -> 1..MaxA], sc \in {1, IF MaxA <= 2 THEN 10 ELSE 5}, off \in Offs(4) :   \* sum sigma^2 <= 140000
            /\ \A i \in 1..3 : b[i] >= b[i + 1]
            /\ st' = [ph |-> "data", p |-> 4, amp |-> [i \in 1..4 |-> sc * b[i]], off |-> off]
 
@@ -521,7 +521,7 @@ ClauseSensitive ==
         eq == EQ(D, st.k, st.wh, f)
     IN CASE st.tag = "rot"      -> ~EigOk(D, st.k, G(D), f, nv, eq, MVs(D, st.k, G(D), nv), [i \in 1..st.k |-> TruncG(D, nv[i])])
          [] st.tag = "trailing" -> ~LeadOk(D, st.k, f, FullS2(st.p, st.amp, st.ord)) /\ (st.wh \/ ~LatOk(D, st.k, f, nv, eq))
-         [] st.tag = "sig2"     -> (st.k = st.p /\ SigOk(D, st.k, f)) => ~TraceOk(D, G(D), f)   \* (TraceOk is guarded by SigOk)
+         [] st.tag = "sig2"     -> (st.k = st.p /\ st.p <= 3 /\ SigOk(D, st.k, f)) => ~TraceOk(D, G(D), f)   \* (in FitWhy TraceOk is guarded by SigOk and CovOk)
          [] st.tag = "scale105" -> ~OrthOk(D, st.k, nv, eq)
 
 \* algebra of the exact summary: M is the scatter of the centred rows, symmetric, translation invariant
